@@ -91,8 +91,14 @@ impl Prop for C25 {
             let mut lines = vec![];
             if i == 0 {
                 lines.push(format!("$ORIGIN {}", ORIGINS[0]));
-                lines.push("$TTL 300".to_string());
-                lines.push("@ IN SOA ns hostmaster 1 60 60 60 60".to_string());
+                if chance(r, 60) {
+                    lines.push("$TTL 300".to_string());
+                    lines.push("@ IN SOA ns hostmaster 1 60 60 60 60".to_string());
+                } else {
+                    // no default TTL in effect: omitted TTLs fall back on the previous record's
+                    lines.push(String::new());
+                    lines.push("@ 450 IN SOA ns hostmaster 1 60 60 60 60".to_string());
+                }
             }
             let n = range(r, 1, 7);
             let mut first = i != 0 && chance(r, 50);
@@ -180,7 +186,7 @@ impl Prop for C25 {
         h
     }
     fn rule() -> String {
-        "one execution = one tree of 1-6 zone files in up to 4 directories with $INCLUDE directives (with/without origin; relative, ../ and absolute paths; cycles and self-inclusion), $ORIGIN/$TTL inside included files, records that depend on inherited context (omitted owner, omitted TTL/class in both orders, relative names, @), depth limit 0-16, optionally one include target missing / a directory / failing with EIO after k octets, optional short reads; compared record by record (path, line, owner, TTL, class, type, RDATA) with the harness's flattening model. Non-trivial = the tree contains at least one $INCLUDE; distinct = distinct scenario".into()
+        "one execution = one tree of 1-6 zone files in up to 4 directories with $INCLUDE directives (with/without origin; relative, ../ and absolute paths; cycles and self-inclusion), $ORIGIN/$TTL inside included files, records that depend on inherited context (omitted owner, omitted TTL/class in both orders, relative names, @), with or without a $TTL default in effect, depth limit 0-16, optionally one include target missing / a directory / failing with EIO after k octets, optional short reads; compared record by record (path, line, owner, TTL, class, type, RDATA) with the harness's flattening model. Non-trivial = the tree contains at least one $INCLUDE; distinct = distinct scenario".into()
     }
     fn assumptions() -> Vec<String> {
         vec![
